@@ -18,6 +18,7 @@ FAMILIES = {
     "big": dict(seed=112, n=1200, opts={**OFF, "group": True, "max_rows": 14, "tables": 2, "cols": 3, "const_atoms": False, "boolops": False,
                                         "join_kinds": ["inner", "left"], "order_p": 0.8, "avg": False}),
     "optshapes": dict(seed=113, n=3000, gen="OptShapes", opts={}),
+    "joingraph": dict(seed=115, n=2000, gen="JoinGraphs", opts={}),
     "cte": dict(seed=108, n=2000, opts={**OFF, "cte": True, "derived": True, "cte_p": 1.0, "boolops": False, "group": True}),
 }
 
